@@ -15,6 +15,7 @@ CLAIMED = {
  "C06": (TECH_CASE, "ActionCache.tla enumerates every ActionResult shape of up to 3 references (7 reference categories x 6 blob states) and checks that the traversal of GetValidatedActionResult answers hit exactly when every non-inline reference is satisfied; FindMissing.tla checks the fail-fast dependency check for all worker interleavings (it refuted the pre-fix code). Every shape is materialised with real protobufs and queried through gRPC GetActionResult, HTTP GET and HEAD, with and without a backend; after a hit the recency order of the index is inspected; the race schedule found by TLC is replayed through a verif gate."),
  "C10": (TECH_CASE, "FindMissing.tla model-checks the batching / worker hand-off / compaction algorithm for all request lists of length <= 4 over 6 digest classes and all interleavings of 2 backend workers (safety: exactly the absent digests, order and duplicates kept; liveness: terminates); every abstract list is scaled to lengths around the real batch size of 20 and sent to the gRPC endpoint with and without a (slow) backend while unrelated uploads run."),
  "C11": (TECH_CASE, "ActionCache.tla enumerates all histories of up to 2 uploads to one action key over 4 encodings (gRPC, HTTP proto / JSON / zstd) x 23 message classes (each invalid kind separately) and checks that what is stored always validates and the latest accepted upload wins; every history is executed and the stored message is read back through gRPC, HTTP proto and HTTP JSON and compared with proto.Equal after undoing the documented server-side changes."),
+ "C13": (TECH_CASE, "Auth.tla states the policy of the property and a mechanism model of main.go's wiring (wrappers per handler and option, client-certificate checks per method, gRPC interceptors with their read-only table) and checks Mechanism = Policy over 3 auth modes x allow_unauthenticated_reads x endpoint metrics x every endpoint x every credential state (it refutes the pre-fix wiring); the resulting 1444-row decision table is replayed against the real binary started once per configuration, with every registered gRPC method (methods unknown to the specification count as mutating)."),
  "C17": (TECH_TRACE, "Reserve's admission test (accounted + deletion backlog + item <= hard limit, refusal changes nothing) is part of Lru.tla; recorded executions with a hard limit must take the branch the specification takes for the backlog value they actually read, which must lie within the bounds implied by the logged remover events."),
  "C18": (TECH_CASE, "Ingress.tla's limit dimension (max_blob_size = size-1 / size / size+1) is enumerated over all write paths; every case is executed on real front ends configured with that limit: over-limit uploads must be refused with a client error and leave nothing behind, uploads of exactly the limit must be accepted."),
 }
